@@ -1,5 +1,6 @@
 import TantivyModel.Proofs.SSTable.Refine
 import TantivyModel.Proofs.SSTable.Writer
+import TantivyModel.Proofs.SSTable.Stream
 /-!
 # C15 — Term dictionaries behave as ordered maps from byte strings
 
@@ -126,6 +127,53 @@ theorem C15_block_scan (ks : List Key) (k : Key) (hs : StrictInc ks) :
   refine ⟨?_, specHit_exact ks k hs⟩
   rw [scanOrNext_spec ks k 0 hs, Hit.shift_zero]
 
+/-! ## streams -/
+
+/-- `Streamer::advance` (skip below the lower bound — tested only until its first success —,
+stop at the first key above the upper bound, emit what the automaton accepts) over any sorted run
+of entries is the filter by bounds and automaton, every entry carrying `ord + its index`;
+for every bound kind, incl. empty and inverted ranges; `AlwaysMatch` streams are the instance of
+an automaton accepting everything -/
+theorem C15_stream_scan {σ V} (A : Automaton σ) (lo hi : Bound) (ord : Nat) (xs : Assoc V)
+    (hs : StrictInc (keys xs)) :
+    scanSearch A lo hi false ord xs
+      = ((xs.zipIdx ord).filter (fun p => matchLo lo p.1.1 && matchHi hi p.1.1 && A.accepts p.1.1)).map
+          (fun p => (p.2, p.1.1, p.1.2)) ∧
+    ((∀ k, A.accepts k = true) → scanStream lo hi false ord xs = scanSearch A lo hi false ord xs) :=
+  ⟨scanSearch_filter A lo hi ord xs hs, fun hA => scanStream_eq_scanSearch A hA lo hi false ord xs⟩
+
+/-- partial form of `C15_automaton_stream`: streaming over the blocks that survive ANY sound
+pruning (a dropped block holds no entry passing bounds and automaton) yields exactly
+`search A m lo hi` — keys and values, in order; block pruning never drops an accepted key.
+Not covered: that `canBlockMatch` (block_match_automaton.rs) is such a sound pruning for every
+automaton with `CanMatchSound` (compared by the harness on every run), and the reported ordinals
+(they are wrong after a pruned block: known finding C15:search-stream-term-ord-after-pruned-block) -/
+theorem C15_automaton_stream_partial {σ V} (A : Automaton σ) (lo hi : Bound) (bs : List (Assoc V))
+    (keep : Assoc V → Bool) (hs : SortedMap bs.flatten)
+    (hsound : ∀ b ∈ bs, keep b = false →
+      ∀ e ∈ b, (matchLo lo e.1 && matchHi hi e.1 && A.accepts e.1) = false) (ord : Nat) :
+    (scanSearch A lo hi false ord (bs.filter keep).flatten).map (fun p => (p.2.1, p.2.2))
+      = search A bs.flatten lo hi := by
+  rw [pruned_search A lo hi bs keep hs hsound ord]
+  unfold search range passes
+  rw [List.filter_filter]
+  congr 1
+  funext e
+  cases matchLo lo e.1 <;> cases matchHi hi e.1 <;> cases A.accepts e.1 <;> rfl
+
+/-- the ordinal misreport is a property of the mechanism, not of an input: skipping a block
+makes the scan count from the wrong base -/
+theorem C15_search_ordinal_counterexample :
+    (build 0 [(([1] : Key), 10), ([2], 20), ([3], 30)]).search (prefixAutomaton [3]) .unbounded .unbounded
+      = [(0, [3], 30)] ∧
+    termOrd [(([1] : Key), 10), ([2], 20), ([3], 30)] [3] = some 2 := by decide +kernel
+
+/-- an inverted range whose bounds are routed two or more blocks apart makes the slice
+computation fail (`assert!(end >= start)`), where the specification is the empty stream -/
+theorem C15_inverted_range_counterexample :
+    (build 0 [(([1] : Key), 10), ([2], 20), ([3], 30)]).stream (.incl [3]) (.excl [1]) none = none ∧
+    range [(([1] : Key), 10), ([2], 20), ([3], 30)] (.incl [3]) (.excl [1]) = [] := by decide
+
 /- Still to prove (full statements; the harness compares these operations on every run):
    C15_ops_refine_ord_to_term : SortedMap m → (build L m).ordToTerm ord = ordToTerm m ord
    C15_ops_refine_range       : SortedMap m → (build L m).stream lo hi limit = some out →
@@ -135,7 +183,8 @@ theorem C15_block_scan (ks : List Key) (k : Key) (hs : StrictInc ks) :
                                  finding C15:inverted-range-across-blocks-panics)
    C15_delta_scan             : StrictInc ks → deltaScan k (deltaEntries [] ks) 0 0 = scanOrNext ks k 0
    C15_automaton_stream       : A.CanMatchSound → keys/values of (build L m).search A lo hi
-                                  = search A m lo hi (pruning by `canBlockMatch` drops no accepted key)
+                                  = search A m lo hi, i.e. `canBlockMatch` is a sound pruning in the
+                                  sense of C15_automaton_stream_partial
    C15_merge                  : (∀ m ∈ ms, SortedMap m) → kwayMerge comb ms = mergeSpec comb ms
                                   ∧ ordinal tables total and strictly monotone -/
 
